@@ -142,8 +142,10 @@ SHUF_MACROS = VIEW_MACROS + COVER[:1] + [
           "v.s == u.s + p + ite(wraps(u, p), ref().bound_inf - ref().bound_sup, 0) and "
           "v.e == u.e + p + ite(wraps(u, p), ref().bound_inf - ref().bound_sup, 0)"),
     # annotator i of the sample carries exactly the shifted units of its ground-truth annotator GA[i]
-    Macro("copy_of", ["X", "i"], "members(GT())[GA[i]] and forall([(v, Unit)], Us(X)[name(i)][v] == "
-                                 "exists([(u, Unit)], Us(ref())[GA[i]][u] and shifted(u, PIV[i], v)))"),
+    # (stated as two implications: both have usable triggers, an equivalence between a membership and an existential has none)
+    Macro("copy_of", ["X", "i"], "members(GT())[GA[i]] and "
+                                 "forall([(v, Unit)], implies(Us(X)[name(i)][v], exists([(u, Unit)], Us(ref())[GA[i]][u] and shifted(u, PIV[i], v)))) and "
+                                 "forall([(u, Unit), (v, Unit)], implies(Us(ref())[GA[i]][u] and shifted(u, PIV[i], v), Us(X)[name(i)][v]))"),
     Macro("annots_upto_or_more", ["k"], "forall(i, 0, k, Ann(T())[name(i)]) and "
                                         "forall([(a, Real)], implies(Ann(T())[a], exists(i, 0, size(GT()), a == name(i))))"),
     Macro("annots_upto", ["X", "n"], "forall([(a, Real)], Ann(X)[a] == exists(i, 0, n, a == name(i)))"),
@@ -157,7 +159,7 @@ SHUF_MACROS = VIEW_MACROS + COVER[:1] + [
 
 contract(F + "ShuffleContinuumSampler.sample_from_continuum",
          params={"self": SHUF()}, returns=CONT(), is_property=True, modifies=[], macros=SHUF_MACROS,
-         ghost_vars={"GA": ("AReal", None), "PIV": ("AReal", None), "DRAWN": ("ABool", None)},
+         ghost_vars={"GA": ("AReal", None), "PIV": ("AReal", None), "DRAWN": ("ABool", None), "DONE": ("Bool", "False")},
          requires=["not isnone(self._ground_truth_annotators)",
                    "implies(not isnone(self._reference_continuum), RI(ref()) and NumUnits(ref()) >= 1 and ref().bound_inf < ref().bound_sup and "
                    "forall([(a, Real)], implies(members(GT())[a], Ann(ref())[a])))",
@@ -174,12 +176,15 @@ contract(F + "ShuffleContinuumSampler.sample_from_continuum",
                      name="W5-integer-pivots-are-whole-numbers"),
                   cl("RI(result)", "C16 C05", name="valid-continuum")],
          loops={"L0": dict(match="while not new_continuum", modifies=["new_continuum"],
-                           inv=["RI(T())", "forall([(a, Real), (u, Unit)], not Us(T())[a][u]) or "
-                                           "(annots_upto(T(), size(GT())) and forall(i, 0, size(GT()), copy_of(T(), i)) and "
-                                           " separated_upto(size(GT())) and forall(i, 0, size(GT()), implies(DRAWN[i], "
-                                           " implies(self._pivot_type == 'int_pivot', isint(PIV[i])) and implies(self._pivot_type == 'float_pivot', "
-                                           " ref().bound_inf <= PIV[i] and PIV[i] <= ref().bound_sup))))",
-                                "forall([(a, Real)], implies(Ann(T())[a], exists(i, 0, size(GT()), a == name(i))))"]),
+                           inv=["RI(T())",
+                                "forall([(a, Real)], implies(Ann(T())[a], exists(i, 0, size(GT()), a == name(i))))",
+                                "implies(not DONE, forall([(a, Real), (u, Unit)], not Us(T())[a][u]))",
+                                "implies(DONE, annots_upto(T(), size(GT())))",
+                                "implies(DONE, forall(i, 0, size(GT()), copy_of(T(), i)))",
+                                "implies(DONE, separated_upto(size(GT())))",
+                                "implies(DONE, forall(i, 0, size(GT()), implies(DRAWN[i], "
+                                "implies(self._pivot_type == 'int_pivot', isint(PIV[i])) and implies(self._pivot_type == 'float_pivot', "
+                                "ref().bound_inf <= PIV[i] and PIV[i] <= ref().bound_sup))))"]),
                 "L0.0": dict(match="for idx in range(len(annotators))", modifies=["new_continuum"],
                              inv=["RI(T())", "annots_upto_or_more(idx)", "forall(i, 0, idx, copy_of(T(), i))",
                                   "forall(i, idx, size(GT()), forall([(v, Unit)], not Us(T())[name(i)][v]))",
@@ -190,11 +195,18 @@ contract(F + "ShuffleContinuumSampler.sample_from_continuum",
                 "L0.0.0": dict(match="for unit in continuum.iter_annotator(rnd_annotator)", index="jU", modifies=["new_continuum"],
                                inv=["RI(T())", "annots_upto_or_more(idx + 1)", "forall(i, 0, idx, copy_of(T(), i))",
                                     "forall(i, idx + 1, size(GT()), forall([(v, Unit)], not Us(T())[name(i)][v]))",
-                                    "forall([(v, Unit)], Us(T())[name(idx)][v] == exists([(u, Unit)], Us(ref())[rnd_annotator][u] and "
-                                    "Uidx(ref())[rnd_annotator][u] < jU and shifted(u, pivot, v)))"])},
+                                    "forall([(v, Unit)], implies(Us(T())[name(idx)][v], exists([(u, Unit)], Us(ref())[rnd_annotator][u] and "
+                                    "Uidx(ref())[rnd_annotator][u] < jU and shifted(u, pivot, v))))",
+                                    "forall([(u, Unit), (v, Unit)], implies(Us(ref())[rnd_annotator][u] and Uidx(ref())[rnd_annotator][u] < jU and "
+                                    "shifted(u, pivot, v), Us(T())[name(idx)][v]))"])},
          hooks=[("before", "while not new_continuum: ...", "model_inv wfmap(ref())"),
                 ("before", "return new_continuum", "model_inv wfmap(new_continuum)"),
                 ("before", "return new_continuum", "assert exists(k, 0, Nkeys(T()), Cnt(T())[Kseq(T())[k]] >= 1)"),
+                ("before", "return new_continuum", "assert exists([(a, Real), (u, Unit)], Us(T())[a][u])"),
+                ("before", "return new_continuum", "assert DONE"),
+                # the unit yielded at position jU is the only unit of that annotator with that index
+                ("before", "if unit.segment.start + pivot > bound_sup: ...",
+                 "assert forall([(u, Unit)], implies(Us(ref())[rnd_annotator][u] and Uidx(ref())[rnd_annotator][u] == jU, u == unit))"),
                 ("before", "segments_available = [...", "model_inv wfmap(new_continuum)"),
                 ("before", "segments_available = [...", "assert forall([(a, Real), (u, Unit)], not Us(T())[a][u])"),
                 ("after", "segments_available = self._remove_pivot_segment(...",
@@ -205,7 +217,16 @@ contract(F + "ShuffleContinuumSampler.sample_from_continuum",
                 ("after", "for unit in continuum.iter_annotator(rnd_annotator): ...", "assert forall(i, 0, idx, copy_of(T(), i))"),
                 ("after", "for unit in continuum.iter_annotator(rnd_annotator): ...",
                  "assert forall([(u, Unit)], implies(Us(ref())[rnd_annotator][u], Uidx(ref())[rnd_annotator][u] < Cnt(ref())[rnd_annotator]))"),
+                ("after", "for unit in continuum.iter_annotator(rnd_annotator): ...", "assert members(GT())[GA[idx]] and GA[idx] == rnd_annotator and PIV[idx] == pivot"),
+                ("after", "for unit in continuum.iter_annotator(rnd_annotator): ...",
+                 "assert forall([(v, Unit)], implies(Us(T())[name(idx)][v], exists([(u, Unit)], Us(ref())[GA[idx]][u] and shifted(u, PIV[idx], v))))"),
+                ("after", "for unit in continuum.iter_annotator(rnd_annotator): ...",
+                 "assert forall([(u, Unit), (v, Unit)], implies(Us(ref())[GA[idx]][u] and shifted(u, PIV[idx], v), Us(T())[name(idx)][v]))"),
                 ("after", "for unit in continuum.iter_annotator(rnd_annotator): ...", "assert copy_of(T(), idx)"),
+                ("after", "for unit in continuum.iter_annotator(rnd_annotator): ...", "assert forall(i, 0, idx + 1, implies(i != idx, copy_of(T(), i)))"),
+                ("after", "for idx in range(len(annotators)): ...", "DONE = True"),
+                ("after", "for idx in range(len(annotators)): ...", "assert annots_upto(T(), size(GT()))"),
+                ("after", "for idx in range(len(annotators)): ...", "assert forall(i, 0, size(GT()), copy_of(T(), i)) and separated_upto(size(GT()))"),
                 # a Unit is determined by its four fields: there is one shifted image of a unit
                 ("before", "while not new_continuum: ...",
                  "assert forall([(u, Unit), (p, Real), (v1, Unit), (v2, Unit)], implies(shifted(u, p, v1) and shifted(u, p, v2), v1 == v2))"),
